@@ -27,6 +27,7 @@ def run(ctx, rep):
     rep.assume("NUL inside an argument is outside the property's alphabet")
     _codecs.fresh_output_files(F, rep, "C18.fresh-file", ["compiler", "bytecode_dev_transpiler"], 2)
     from props import _strunits
+    records_in_order(F, rep)
     _strunits.unit_mix(F, rep, "C18.index-unit", ["bytecode_dev_transpiler", "compiler"])
     rep.assume("a character not compared against any constant by the reader behaves like the class representative")
     try:
@@ -190,3 +191,25 @@ def run(ctx, rep):
 def json_consts(f):
     import json
     return json.dumps(f.d["blocks"])
+
+
+def records_in_order(F, rep, rule="C18.framing"):
+    """The transpiler carries the text form into the binary form record by record: every `function NAME .. end` block becomes one `f NAME .. e` record,
+    in the order of the text (the loader binds a label to the *last* record that carries it, and the compiler does emit a label twice for classes of
+    one name declared in two function bodies).  transpile_file therefore keeps what it has read in sequences only: a keyed or sorted collection of
+    the records (a map from label to body) merges two blocks of one label and re-orders the rest."""
+    import re
+    g = [f for f in F.all_fns() if f.path.endswith("bytecode_dev_transpiler::transpile_file") or f.path == "bytecode_dev_transpiler::transpile_file"]
+    if len(g) != 1:
+        raise AnchorMissing("bytecode_dev_transpiler::transpile_file")
+    g = g[0]
+    hits = []
+    for h in [g] + F.closures_of(g):
+        for c in h.calls():
+            cal = mir.strip_generics(c.callee() or "")
+            if re.search(r"(BTreeMap|HashMap|BTreeSet|HashSet|BinaryHeap|IndexMap)(<.*>)?::\w+$|btree_map::\w+::\w+$|hash_map::\w+::\w+$", cal):
+                hits.append((h, c, cal))
+    rep.ob(rule, "the transpiler keeps the records of the text form in a sequence (one `f NAME .. e` per `function NAME .. end`, in order)", "violated" if hits else "ok",
+           ("transpile_file calls %s: records are collected by label, so two blocks of one label are merged and the others re-ordered; the loader then binds "
+            "the label to another body than `run` does" % mir.short(hits[0][2])) if hits else "", hits[0][1].span if hits else g.span, fn=g.path,
+           key=rule + "|records-in-order")
